@@ -194,6 +194,17 @@ impl<Key, Value> Store<Key, Value>
     }
 }
 
+/// Read-only accessors used by the model-checking harness in /verif (never compiled without `--cfg cached_verif`).
+#[cfg(cached_verif)]
+impl<Key, Value> Store<Key, Value>
+    where Key: Hash + Eq + Clone,
+          Value: Clone, {
+    /// (key, value, key id, expiry, soft-deleted) of every entry, without touching the hit/miss counters.
+    pub(crate) fn verif_snapshot(&self) -> Vec<(Key, Value, KeyId, Option<ExpireAfter>, bool)> {
+        self.store.iter().map(|pair| (pair.key().clone(), pair.value().value(), pair.value().key_id(), pair.value().expire_after(), pair.value().is_soft_deleted)).collect()
+    }
+}
+
 #[cfg(test)]
 mod tests {
     use std::ops::Add;
